@@ -848,7 +848,7 @@ fn gen_client_body(m: &Menus, c: &GenCase, ch: &Chooser) -> Outcome {
             req_md.push(a(k, &String::from_utf8_lossy(v)));
         }
     }
-    let script = Script { initial_md: vec![], msgs: vec![vec![5]], end: None, handler_err: false, bidi: BidiMode::Ignore, disable_compression: false };
+    let script = Script { initial_md: vec![], msgs: vec![vec![5]], end: None, handler_err: false, bidi: BidiMode::Ignore, disable_compression: false, exact_hint: false };
     let (server, log) = new_server(script, ch, false);
     let capture = Arc::new(Mutex::new(Capture::default()));
     let whole = Chunking::Fixed(vec![]);
